@@ -631,6 +631,7 @@ void vf_run(const uint8_t *data, size_t len)
     S.bufs.clear();
     for (int o = 0; o < NALL; o++) {
         memset(&g_arr[o], 0xDD, sizeof g_arr[o]);
+        memset(&g_arr[o], 0xA5, sizeof g_arr[o]);
         cstl_array_init(&g_arr[o]);
         S.view[o] = View{-1, 0, 0};
     }
